@@ -24,3 +24,39 @@ prop("C01", "other",
 
 TECHNIQUE = {}
 NOT_APPLICABLE = {}
+
+_GENERIC = ("Deductive tier: the contracts tagged with this property are discharged for all inputs by pyvc from the current "
+            "source (listed under coverage.contracts; anything not proved is under coverage.not_proved). Bounded tier: the "
+            "stand-in executes the real code natively against the property's clauses on the stated scope; it is labelled "
+            "bounded and never counted as discharged. ")
+
+prop("C02", "other", _GENERIC + "Proved: wire Parser primitives every codec is built on (exact consumption, FormError on short input). "
+     "Per-type codec round trips are bounded.", needs_obligations=True)
+prop("C03", "other", _GENERIC + "Proved: rcode/opcode flag codecs and their round-trip lemmas. Whole-message render/parse composition is bounded.")
+prop("C04", "other", _GENERIC + "Proved: exception sets and termination of the wire parser kernel (Parser.*, name.from_wire_parser, "
+     "_validate_labels, Name.__init__). Text side and per-type bodies are bounded.")
+prop("C05", "other", _GENERIC + "No text-codec contract is discharged yet; the property is decided by the bounded stand-in only.", needs_obligations=False)
+prop("C06", "proof", "Name.fullcompare is proved totally correct against the RFC 4034 6.1 order (pyvc, all inputs); antisymmetry, "
+     "reflexivity, transitivity, equality-iff-case-insensitive-labels and agreement with the subdomain predicates are Level-2 lemmas "
+     "over that contract; relativize/derelativize/parent/split/concatenate have label-exact contracts. Successor/predecessor and the "
+     "hash law are covered by the bounded stand-in (labelled bounded).",
+     assumptions=["A-order: bytes comparison is a strict total (lexicographic) order on octet strings; its transitivity is instantiated at the deciding label",
+                  "L-sum: additivity of the finite sum wirelen (instantiated, not re-proved by the solver)"])
+prop("C07", "other", _GENERIC + "Proved: Name equality contract (shared with C06). Set algebra, Rdataset and immutability are bounded.", needs_obligations=True)
+prop("C08", "other", _GENERIC + "No renderer contract is discharged yet; decided by the bounded stand-in only.", needs_obligations=False)
+prop("C09", "other", _GENERIC + "No zone-file contract is discharged yet; decided by the bounded stand-in only.", needs_obligations=False)
+prop("C10", "other", _GENERIC + "Proved: RFC 1982 Serial arithmetic and comparison contracts and the increment lemma. Transactions are bounded.")
+prop("C11", "other", _GENERIC + "No contract discharged yet; decided by the bounded stand-in only.", needs_obligations=False)
+prop("C12", "other", _GENERIC + "No contract discharged yet; schedules are enumerated by the bounded stand-in (controlled scheduler). "
+     "Liveness under an unfair scheduler is out of reach.", needs_obligations=False)
+prop("C13", "other", _GENERIC + "Proved: RFC 1982 Serial comparison used for 'serial went backwards'. The transfer state machine is bounded.")
+prop("C14", "other", _GENERIC + "No contract discharged yet; decided by the bounded stand-in (independent RFC 8945 oracle).", needs_obligations=False,
+     assumptions=["A-crypto: hashlib/hmac are trusted"])
+prop("C15", "other", _GENERIC + "Proved: DNSKEY key tag (RFC 4034 appendix B) with loop invariant over the real loop. Other computations are bounded.",
+     assumptions=["A-crypto: hash functions are trusted"])
+prop("C16", "other", _GENERIC + "Proved: the lifetime budget (_compute_timeout) over reals with an external clock. The resolution state machine is bounded.",
+     assumptions=["A-float: clock readings and timeouts are reals"])
+prop("C17", "other", _GENERIC + "No contract discharged yet; decided by the bounded stand-in.", needs_obligations=False)
+prop("C18", "other", _GENERIC + "No contract discharged yet; decided by the bounded stand-in (scripted sockets).", needs_obligations=False)
+prop("C19", "other", _GENERIC + "Proved: _Node.search_in_node (binary search, termination). Tree restructuring and copy-on-write are bounded.")
+prop("C20", "other", _GENERIC + "No contract discharged yet; decided by the bounded stand-in.", needs_obligations=False)
